@@ -40,6 +40,9 @@ ESSENTIAL = {
     "OrcaLin": [r"^ret:res\."],                        # level A: replies (hcall events are level B, drift only)
     "ConnTrace": [r"^x:units", r"^x:stray$"],
     "LifecycleTrace": [r"^prefix:(open_l1|open_l2|gor|fresh_ok|accepting)$"],
+    "WireTrace": [r"^decode:variants\.#\.got\.(op|quiet\.#|klens\.#|flags|exp)$", r"^mal:alive$"],
+    "ChunkGeomTrace": [r"^set:reqs\.#\.(vl|kl|t)$", r"^set:meta\.n$"],
+    "KetamaTrace": [r"^route:"],
     "walk2": [r"^\w*:out", r"^\w*:l2n\.k\d\.(v\.#|f)$"],     # two tiers: reply and the authoritative tier (L1 vs the model is drift)
     "walk1": [r"^\w*:out", r"^\w*:l1n\.k\d\.(v\.#|f)$"],
 }
@@ -219,6 +222,9 @@ def walk_case(casedir, case, nmut, seed, exe):
         for _ in range(50):
             i = rng.randrange(len(parsed))
             lv = [(p, v) for p, v in leaves(parsed[i]) if re.match(r"^(out|l1n|l2n)", p) and not p.endswith(".[]")]
+            xo = (parsed[i].get("x") or {}).get("op")
+            if case["proto"] == "text" and xo == "gat":
+                continue  # the text protocol has no get-and-touch: the walker skips these transitions
             if lv:
                 break
         else:
@@ -293,7 +299,7 @@ def main():
         tot, rej = len(muts), sum(1 for m in muts if m["rejected"])
         summary.append("%-34s %-16s events=%-5d corruptions=%-3d rejected=%-3d never noticed: %s%s" % (
             r["case"], r["module"], r["events"], tot, rej, ", ".join(r["never_noticed"])[:150] or "-", "  SKIPPED: " + r["skipped"] if r.get("skipped") else ""))
-        if missed or (tot and rej * 4 < tot) or r.get("skipped"):
+        if missed or (tot and rej * 4 < tot and not ess) or r.get("skipped"):
             slack.append(r["case"])
     os.makedirs(os.path.dirname(a.out), exist_ok=True)
     with open(a.out, "w") as f:
